@@ -186,7 +186,7 @@ def exercise(ctx, hb, drv, quick, profile):
                 c = l.split(" => ", 1)[0]
                 op, fld, n, total, tw = case_info(c.replace("spec:", "", 1))
                 w = wt(c)
-                if w <= cheap_thr or op == "permute_index" or (op.endswith("rowmat") and w <= 20000):
+                if w <= cheap_thr or op == "permute_index" or (op.endswith("rowmat") and w <= 120000):
                     chosen.append(l)
                     used += w
                     continue
@@ -196,8 +196,9 @@ def exercise(ctx, hb, drv, quick, profile):
             for k in sorted(classes):
                 v = classes[k]
                 v.sort(key=lambda x: x[0])
-                picks = [v.pop(0)]
-                if v and not (quick and k[1] == "f128" and v[-1][0] > (150_000 if k[0].startswith("spec:") else 400_000)):
+                picks = [v.pop(0)] if v[0][0] <= budget // 20 else []
+                heavy_cap = (150_000 if k[0].startswith("spec:") else 400_000) if (quick and k[1] == "f128") else budget // 20
+                if v and v[-1][0] <= heavy_cap:
                     picks.append(v.pop())
                 for w, l in picks:
                     chosen.append(l)
@@ -222,17 +223,19 @@ def exercise(ctx, hb, drv, quick, profile):
             op, fld, n, total, tw = case_info(c)
             if total <= fmax:
                 cand_f.append(l)
-            if op in SPEC_OPS and r.strip() != "panic" and tw in (None, "std") and n >= 2 and n & (n - 1) == 0:
+            if op in SPEC_OPS and r.strip() != "panic" and tw in (None, "std") and n >= 2 and n & (n - 1) == 0 \
+                    and total <= (1 << (13 if quick else 15)):
                 cand_s.append("spec:" + l)
-        budget = 5_000_000 if quick else 80_000_000
+        budget = 5_000_000 if quick else 60_000_000
         cheap = 1000 if quick else 30000
         faithful, used_f = select(cand_f, budget, cheap)
         spec, used_s = select(cand_s, budget // 2, cheap)
         import time as _t
         t0 = _t.time()
-        par_correspondence(ctx, f"faithful-model:{profile}", faithful, drv, jobs=jobs, weight=wt)
+        tmo = 900 if quick else 5400
+        par_correspondence(ctx, f"faithful-model:{profile}", faithful, drv, jobs=jobs, weight=wt, timeout=tmo)
         t1 = _t.time()
-        par_correspondence(ctx, f"spec-fft_rec:{profile}", spec, drv, jobs=jobs, weight=wt)
+        par_correspondence(ctx, f"spec-fft_rec:{profile}", spec, drv, jobs=jobs, weight=wt, timeout=tmo)
         ctx.notes["correspondence_wall_s"] = {"faithful": round(t1 - t0, 1), "spec": round(_t.time() - t1, 1), "jobs": jobs}
         ctx.notes["coverage_faithful_model"] = coverage(faithful)
         ctx.notes["coverage_spec_model"] = coverage([l.replace("spec:", "", 1) for l in spec])
